@@ -4,4 +4,5 @@ CONSTANTS
   NCells = 1
   Kind = "ccube"
   LabelRule = "prepend"
+  LabelStore = "local"
 CHECK_DEADLOCK FALSE
